@@ -54,6 +54,24 @@ type verifStubState struct {
 	// Unmarshal method, and the container whose elements the element decoder then yields
 	swWin []byte
 	swSrc ISwComponents
+	// every top-level encoding produced so far and the value it encodes: decoding such a
+	// buffer again yields that value (round-trip contract of the codec)
+	encs []verifEnc
+}
+
+type verifEnc struct {
+	buf []byte
+	src interface{}
+}
+
+// verifEncSrc: the value a buffer produced by the encoder stub encodes (nil if it is none)
+func verifEncSrc(data []byte) interface{} {
+	for _, e := range verifStub.encs {
+		if len(data) > 0 && len(data) == len(e.buf) && &data[0] == &e.buf[0] {
+			return e.src
+		}
+	}
+	return nil
 }
 
 type verifBufClaims struct {
@@ -174,6 +192,7 @@ func (verifEM) Marshal(v interface{}) ([]byte, error) {
 	out := ndBytes("em.out" + label)
 	ndAssume(len(out) > 0)
 	verifMapLike(out)
+	verifStub.encs = append(verifStub.encs, verifEnc{out, verifStub.emTop})
 	return out, nil
 }
 func (verifEM) NewEncoder(w io.Writer) *cbor.Encoder { return nil }
@@ -203,6 +222,33 @@ func (verifDM) Unmarshal(data []byte, v interface{}) error {
 		rv := reflect.ValueOf(v).Elem()
 		rv.Field(0).SetString("")
 		return nil
+	}
+	if src := verifEncSrc(data); src != nil {
+		// the library's own output: decodes to what was encoded
+		switch p := v.(type) {
+		case *p1Claims:
+			if c, ok := src.(*P1Claims); ok {
+				return verifFillP1(p, c, data, false)
+			}
+			return verifErrStub
+		case *p2Claims:
+			if c, ok := src.(*P2Claims); ok {
+				return verifFillP2(p, c, data, false)
+			}
+			return verifErrStub
+		}
+		rv := reflect.ValueOf(v).Elem()
+		if rv.Kind() == reflect.Struct && rv.NumField() == 1 && rv.Field(0).Kind() == reflect.String {
+			name := ""
+			if c, ok := src.(*P2Claims); ok && c.Profile != nil {
+				if n, err := c.Profile.Get(); err == nil {
+					name = n
+				}
+			}
+			rv.Field(0).SetString(name)
+			return nil
+		}
+		return verifErrStub
 	}
 	switch p := v.(type) {
 	case *p1Claims:
